@@ -37,7 +37,7 @@ def cases(tier, seed):
         if tier != 'quick' or name in ('F1', 'F4'):
             out.append({'kind': 'op', 'op': name, 'sparse': False, 'backend': 'jax'})
     # circuits with edges (C01 library), scalar
-    nodes = ['L', 'SA', 'AO', 'T1', 'T2', 'LT', 'PT', 'XV'] if tier == 'quick' else gen.QUICK_NODES
+    nodes = ['L', 'SA', 'AO', 'T1', 'T2', 'LT', 'PT', 'XV', 'TW', 'TU'] if tier == 'quick' else gen.QUICK_NODES
     seen = set()
     for lt, edges in gen.flat_circuits(2, 2, nodes, with_self=True):
         if not edges:
@@ -45,9 +45,6 @@ def cases(tier, seed):
         s = gen.make_spec(lt, edges)
         key = json.dumps(s, sort_keys=True)
         if key in seen or gen.has_alg_loop(s):
-            continue
-        # models whose run function itself is hit by a known C01 finding are not Jacobian test material
-        if set(C01.features(s)) & {'edge_var_named_like_alias', 'edge_var_named_weight'}:
             continue
         seen.add(key)
         if tier == 'quick' and len(seen) % 4:
